@@ -221,9 +221,14 @@ func (k Keeper) EscrowReporterStake(ctx context.Context, reporterAddr sdk.AccAdd
 			if err != nil {
 				return err
 			}
-			_, err = k.undelegate(ctx, delAddr, dstVAl, math.LegacyNewDecFromInt(remaining))
+			remainingAtDst, err := k.undelegate(ctx, delAddr, dstVAl, math.LegacyNewDecFromInt(remaining))
 			if err != nil {
 				return err
+			}
+			// what is recorded below must have been moved: tokens that are not at the redelegation
+			// destination either (escrowed by an earlier dispute, unbonded) cannot be escrowed
+			if !remainingAtDst.IsZero() {
+				return errors.New("not enough tokens at the redelegation destination to escrow")
 			}
 			disputeTokens = append(disputeTokens, &types.TokenOriginInfo{
 				DelegatorAddress: del.DelegatorAddress,
